@@ -264,14 +264,68 @@ fn run_cfg<TC: ModelCfg>(args: &Args, rep: &Report) {
     }
 }
 
+/// Supplementary, SAMPLED (not exhaustive): the same publishes as real concurrent tasks on a multi-thread
+/// runtime over the plain in-memory database (no gates), judged by the same serial-order oracle.
+fn free_running_multithread<TC: ModelCfg>(rep: &Report, reps: usize) {
+    use crate::gate::{GateDb, GateVrf};
+    let rt = tokio::runtime::Builder::new_multi_thread().worker_threads(8).enable_time().build().unwrap();
+    let al = alphabet::<TC>();
+    let (a, b, c) = (al.labels[0].clone(), al.labels[1].clone(), al.labels[2].clone());
+    let batches: Vec<Batch> = vec![
+        vec![(a.clone(), b"y".to_vec()), (b.clone(), b"x".to_vec())],
+        vec![(a.clone(), b"z".to_vec()), (c.clone(), b"x".to_vec())],
+        vec![(b.clone(), b"y".to_vec())],
+    ];
+    let mut outcomes = std::collections::BTreeSet::new();
+    for _ in 0..reps {
+        rep.eval(1);
+        let (results, db, vrf) = rt.block_on(async {
+            let db = GateDb::new();
+            let vrf = GateVrf::new();
+            let dir = new_dir::<TC>(&db, &vrf, CacheCfg::Default, AzksParallelismConfig::default()).await;
+            dir.publish(to_akd_batch(&vec![(a.clone(), b"x".to_vec())])).await.unwrap();
+            let mut hs = vec![];
+            for bt in batches.iter().cloned() {
+                let d = dir.clone();
+                hs.push(tokio::spawn(async move { d.publish(to_akd_batch(&bt)).await }));
+            }
+            let mut results = vec![];
+            for h in hs {
+                results.push(h.await.expect("publish task"));
+            }
+            (results, db, vrf)
+        });
+        let mut m0 = DirModel::default();
+        m0.publish(&vec![(a.clone(), b"x".to_vec())]);
+        let calls: Vec<(Batch, Option<EpochHash>)> = batches.iter().cloned().zip(results.iter().map(|r| r.as_ref().ok().cloned())).collect();
+        let shown: Vec<String> = results.iter().map(|r| match r { Ok(eh) => format!("Ok({})", eh.0), Err(_) => "Err".into() }).collect();
+        outcomes.insert(shown.join(","));
+        match linearize::<TC>(&m0, &calls) {
+            None => rep.violation(format!("{}/multithread_free_run/returned_pairs_not_serializable", TC::NAME), json!({"results": shown})),
+            Some((mfinal, _)) => {
+                let published: Vec<D32> = (0..=mfinal.epoch).map(|e| model_root::<TC>(&mfinal.as_of(e)).0).collect();
+                let bads = crate::gate::plain_runtime().block_on(async {
+                    let fresh = new_dir::<TC>(&db, &vrf, CacheCfg::None, AzksParallelismConfig::disabled()).await;
+                    reader_suite::<TC, _>(&fresh, &mfinal, &published, &[], false).await
+                });
+                for bd in bads {
+                    rep.violation(format!("{}/multithread_free_run/final_state/{}", TC::NAME, bd.kind), json!({"results": shown, "detail": bd.detail}));
+                }
+            }
+        }
+    }
+    rep.count(&format!("{}:multithread_free_run:distinct_outcomes", TC::NAME), outcomes.len() as u64);
+}
+
 pub fn run(args: &Args) -> i32 {
     let rep = Report::new("C12", &args.tier, "model_checking");
     run_cfg::<W>(args, &rep);
     if !args.quick() {
         run_cfg::<E>(args, &rep);
     }
+    free_running_multithread::<W>(&rep, if args.quick() { 20 } else { 300 });
     rep.finish(
-        "one evaluation = one complete schedule (real Directory::publish tasks on clones of one directory; scheduling points = every Database call and VRF key fetch; all schedules with <= 2 preemptions quick / <= 3 thorough, 3 publishers <= 1 / <= 2). states/transitions = scheduler steps executed over all schedules (every schedule is executed on the implementation, hence traces_validated = executions). Oracle: some serial order of the successful calls explains every returned (epoch, hash); final state (same manager and fresh instance) equals that serial order; later publish lands on the next epoch. distinct = distinct (scenario, outcome) combinations",
+        "one evaluation = one complete schedule (real Directory::publish tasks on clones of one directory; scheduling points = every Database call and VRF key fetch; all schedules with <= 2 preemptions quick / <= 3 thorough, 3 publishers <= 1 / <= 2). states/transitions = scheduler steps executed over all schedules (every schedule is executed on the implementation, hence traces_validated = executions). Oracle: some serial order of the successful calls explains every returned (epoch, hash); final state (same manager and fresh instance) equals that serial order; later publish lands on the next epoch. distinct = distinct (scenario, outcome) combinations. Supplementary and SAMPLED, not part of the exhaustive claim: 20 (thorough 300) free-running executions of three concurrent publishes on an 8-thread runtime with the default parallelism and cache, same oracle",
         &["interleavings finer than storage-operation granularity are not explored (code between two awaits on the environment runs atomically on the single runtime thread)", "tokio 1.53 current-thread on_thread_park semantics", "blake3 collision resistance"],
     )
 }
